@@ -4,13 +4,18 @@ stored set returns its members; a failed export leaves no partial geometry or va
 Correspondence: the Lean model `Model/Vmap.lean` (driver op `vmap …`, an abstract file + exporter/importer
 state machines) against the real `VMAPExport` / `VMAPImport` working on temporary HDF5 files: after every
 exporter call the content of /VMAP/GEOMETRY and /VMAP/VARIABLES is read back with h5py and compared with the
-model's file, every import chain's frame is compared cell by cell (bit patterns).
+model's file (whether the call raised, point ids, coordinates bit for bit, elements with type and connectivity,
+set members as sets, variables), every import chain's frame is compared cell by cell (bit patterns).
 Oracle: the property's own relations evaluated on the real code with expectations computed directly from
-the exported frames (independent of the Lean model)."""
+the exported frames (independent of the Lean model): round trip right after the call AND again at the end of
+the history, repeatable reads, filters, a valid call must succeed (the dimension of a mesh is judged from its
+own frame), a failing call - including failures injected into h5py after data were written - must leave a
+recursive dump of the whole file (names, shapes, dtypes, attributes, data) as it was."""
+import copy
 import json
-import math
 import os
 import shutil
+import struct
 import tempfile
 
 import numpy as np
@@ -24,11 +29,21 @@ SOURCES = [
     "src/pylife/vmap/vmap_export.py",
     "src/pylife/vmap/vmap_import.py",
     "src/pylife/vmap/vmap_structures.py",
+    "src/pylife/vmap/vmap_attribute.py",
+    "src/pylife/vmap/vmap_dataset.py",
+    "src/pylife/vmap/vmap_element_type.py",
+    "src/pylife/vmap/vmap_integration_type.py",
+    "src/pylife/vmap/exceptions.py",
 ]
 
 ELEMENT_TYPES = {(2, 3): 0, (2, 6): 1, (2, 4): 2, (2, 8): 3, (3, 4): 4, (3, 10): 5, (3, 6): 6, (3, 15): 7,
                  (3, 8): 8, (3, 20): 9}
 INT32_MIN, INT32_MAX = -2 ** 31, 2 ** 31 - 1
+NAN = float("nan")
+
+# finding classes that may be OPEN known findings (tied to an input mechanism, see `mechanism_from`)
+K_OVERFLOW = "id-overflow-int32"
+K_STICKY = "sticky-dimension"
 
 _MOD = {}
 
@@ -49,8 +64,19 @@ def cell(x):
 
 
 def err_name(e):
-    n = type(e).__name__
-    return n
+    return type(e).__name__
+
+
+def err_cause(e):
+    """Class name plus, for the exporter's wrapper exception, the class of the exception it wrapped (statistics only)."""
+    inner = getattr(e, "__context__", None)
+    if type(e).__name__ == "VMAPExportError" and inner is not None:
+        return f"VMAPExportError<{type(inner).__name__}>"
+    return type(e).__name__
+
+
+def fits32(i):
+    return INT32_MIN <= i <= INT32_MAX
 
 
 def make_frame(fr):
@@ -59,7 +85,13 @@ def make_frame(fr):
                                      np.asarray([r[1] for r in rows], dtype=np.int64)],
                                     names=["element_id", "node_id"])
     data = np.asarray([r[2] for r in rows], dtype=float).reshape(len(rows), len(fr["cols"]))
-    return pd.DataFrame(data, index=idx, columns=list(fr["cols"]))
+    df = pd.DataFrame(data, index=idx, columns=list(fr["cols"]))
+    if fr.get("f32"):
+        df = df.astype(np.float32)
+    for c in fr.get("obj", []):
+        if c in df.columns:
+            df[c] = df[c].astype(object)
+    return df
 
 
 def decode(x):
@@ -67,7 +99,7 @@ def decode(x):
 
 
 def snapshot(fn):
-    """Structured content of /VMAP/GEOMETRY and /VMAP/VARIABLES."""
+    """Structured content of /VMAP/GEOMETRY and /VMAP/VARIABLES (what the model's `File` describes)."""
     snap = {"geoms": {}, "groups": {}, "vars": {}}
     with h5py.File(fn, "r") as f:
         for name, g in f["VMAP/GEOMETRY"].items():
@@ -112,21 +144,31 @@ def snapshot(fn):
 
 
 def show_snapshot(snap):
+    """The part of the file the model describes, in the model's text form.  Incidentals are normalised on both sides:
+    set members as ascending distinct ids, the rows of a nodal variable by node id, (state, geometry) groups only when
+    they hold a variable."""
     out = ["G"]
     for name in sorted(snap["geoms"]):
         d = snap["geoms"][name]
         els = ",".join(f"{e}:{t}:" + ".".join(str(n) for n in conn) for e, t, conn in d["els"])
-        sets = ",".join(f"{k}:{n}:" + ".".join(str(i) for i in ids) for k, n, ids in d["sets"])
+        sets = ",".join(f"{k}:{n}:" + ".".join(str(i) for i in sorted(set(ids))) for k, n, ids in d["sets"])
         out.append(f"[{name}:pts={','.join(str(i) for i in d['pts'])};nc={d['nc']};xyz="
                    + "/".join(",".join(r) for r in d["xyz"]) + f";els={els};sets={sets}"
                    + "".join(";" + p for p in d["partial"]) + "]")
     out.append("S")
     for (st, gn) in sorted(snap["groups"], key=lambda p: p[0] + "/" + p[1]):
+        keys = sorted(k for k in snap["vars"] if k[0] == st and k[1] == gn)
+        if not keys:
+            continue
         seg = f"[{st}/{gn}:size={snap['groups'][(st, gn)]}"
-        for key in sorted(k for k in snap["vars"] if k[0] == st and k[1] == gn):
+        for key in keys:
             v = snap["vars"][key]
-            ids = "missing" if v["ids"] is None else ",".join(str(i) for i in v["ids"])
-            vals = "missing" if v["values"] is None else "/".join(",".join(r) for r in v["values"])
+            ids, vals = v["ids"], v["values"]
+            if v["loc"] == 2 and ids is not None and vals is not None and len(ids) == len(vals):
+                order = sorted(range(len(ids)), key=lambda i: ids[i])
+                ids, vals = [ids[i] for i in order], [vals[i] for i in order]
+            ids = "missing" if ids is None else ",".join(str(i) for i in ids)
+            vals = "missing" if vals is None else "/".join(",".join(r) for r in vals)
             seg += f";{key[2]}:{v['loc']}:{v['ncols']}:{ids}:{vals}"
         out.append(seg + "]")
     return "".join(out)
@@ -138,6 +180,81 @@ def show_frame(df):
     for k, r in zip(df.index, vals):
         rows.append(f"{int(k[0])}:{int(k[1])}:" + ",".join(cell(v) for v in r))
     return "cols=" + ",".join(str(c) for c in df.columns) + ";rows=" + ";".join(rows)
+
+
+# ------------------------------------------------------------------ full dump of a file (oracle side)
+def canon(x):
+    if isinstance(x, np.ndarray):
+        if x.dtype.kind == "O" or x.dtype.names:
+            return [canon(v) for v in x.tolist()]
+        return (str(x.dtype), tuple(x.shape), x.tobytes())
+    if isinstance(x, (tuple, list)):
+        return [canon(v) for v in x]
+    if isinstance(x, np.generic):
+        return (str(x.dtype), x.tobytes())
+    if isinstance(x, float):
+        return struct.pack("<d", x)
+    return x
+
+
+def full_dump(fn):
+    """path -> everything h5py shows of the object: kind, shape, dtype, data, all attributes."""
+    out = {}
+
+    def visit(name, obj):
+        attrs = {k: canon(obj.attrs[k]) for k in obj.attrs.keys()}
+        if isinstance(obj, h5py.Dataset):
+            out[name] = ("dataset", tuple(obj.shape), str(obj.dtype), canon(obj[()]), attrs)
+        else:
+            out[name] = ("group", attrs)
+    with h5py.File(fn, "r") as f:
+        out["/"] = ("group", {k: canon(f.attrs[k]) for k in f.attrs.keys()})
+        f.visititems(visit)
+    return out
+
+
+def dump_diff(before, after):
+    """Paths that differ.  The (state) and (state, geometry) groups under /VMAP/VARIABLES that hold no variable are not
+    content: a failing add_variable may leave them or clear them away."""
+    def content(d):
+        hold = set()
+        for k in d:
+            parts = k.split("/")
+            if parts[:2] == ["VMAP", "VARIABLES"] and len(parts) >= 5:
+                hold.add("/".join(parts[:3]))
+                hold.add("/".join(parts[:4]))
+        return {k: v for k, v in d.items()
+                if not (k.startswith("VMAP/VARIABLES/") and len(k.split("/")) in (3, 4) and k not in hold)}
+    before, after = content(before), content(after)
+    return sorted([k for k in after if k not in before or after[k] != before[k]] + [k for k in before if k not in after])
+
+
+class Inject:
+    """Makes the k-th `Group.create_dataset` ('ds') or the k-th `attrs[...] = value` ('attr') inside the block raise:
+    a failure of the storage layer at a point where earlier parts of the call have already been written."""
+
+    def __init__(self, what, k):
+        self.what, self.k, self.n, self.fired = what, k, 0, False
+
+    def __enter__(self):
+        outer = self
+        if self.what == "ds":
+            self.cls, self.attr = h5py.Group, "create_dataset"
+        else:
+            self.cls, self.attr = h5py.AttributeManager, "__setitem__"
+        self.orig = orig = getattr(self.cls, self.attr)
+
+        def wrapper(this, *a, **kw):
+            outer.n += 1
+            if outer.n == outer.k:
+                outer.fired = True
+                raise RuntimeError("storage failure (inject())")
+            return orig(this, *a, **kw)
+        setattr(self.cls, self.attr, wrapper)
+        return self
+
+    def __exit__(self, *a):
+        setattr(self.cls, self.attr, self.orig)
 
 
 # ------------------------------------------------------------------ protocol line
@@ -158,6 +275,9 @@ def encode(case):
     for fr in case["frames"]:
         t.append(str(len(fr["cols"])))
         t += [S(c) for c in fr["cols"]]
+        obj = [c for c in fr.get("obj", []) if c in fr["cols"]]
+        t.append(str(len(obj)))
+        t += [S(c) for c in obj]
         t.append(str(len(fr["rows"])))
         for e, n, vals in fr["rows"]:
             t += [str(e), str(n)] + [f2h(v) for v in vals]
@@ -176,6 +296,8 @@ def encode(case):
             t += [str(op["frame"]), "1" if ok else "0", S(name if isinstance(name, str) else "")]
         elif k == "list":
             t += ["L", S(op["geom"])]
+        elif k == "other":
+            t.append("X")
         elif k == "import":
             t += ["I", str(len(op["chains"]))]
             for ch in op["chains"]:
@@ -205,6 +327,13 @@ def location_arg(loc):
     return loc       # not a VariableLocations member
 
 
+IT_CONTENT = {
+    "TYPE1": [0, "GAUSS_TRIANGLE_3", 3, 2, 0.0, [0.166667, 0.166667, 0.666667, 0.166667, 0.166667, 0.666667],
+              [0.333333, 0.333333, 0.333333], []],
+    "TYPE2": [1, "GAUSS_QUAD_4", 4, 2, 0.0, [-0.5, -0.5, 0.5, -0.5, 0.5, 0.5, -0.5, 0.5], [1.0, 1.0, 1.0, 1.0], []],
+}
+
+
 def apply_export(ex, op, frames):
     k = op["op"]
     if k == "geom":
@@ -217,6 +346,12 @@ def apply_export(ex, op, frames):
         name = op.get("name")
         fn = ex.add_node_set if op["kind"] == 0 else ex.add_element_set
         fn(op["geom"], pd.Index(op["ids"], dtype=np.int64), frames[op["frame"]], name)
+    elif k == "other":
+        if op["call"] == "it":
+            content = {0: {}, 1: IT_CONTENT, 2: {"T": [0, "BAD"]}}[op["content"]]
+            ex.add_integration_types(content)
+        else:
+            ex.set_group_attribute(op["path"], op["key"], op["value"])
 
 
 def apply_import(im, st):
@@ -232,16 +367,20 @@ def apply_import(im, st):
         im.filter_element_set(st[1])
 
 
-def run_chain(im, chain):
+def run_chain(im, chain, errs=None):
     for i, st in enumerate(chain):
         try:
             apply_import(im, st)
         except Exception as e:
-            return f"err:{err_name(e)}@{i}"
+            if errs is not None:
+                errs.append(err_name(e))
+            return f"err@{i}"
     try:
         fr = im.to_frame()
     except Exception as e:
-        return f"err:{err_name(e)}@{len(chain)}"
+        if errs is not None:
+            errs.append(err_name(e))
+        return f"err@{len(chain)}"
     return show_frame(fr)
 
 
@@ -260,15 +399,23 @@ class Importer:
 
 
 # ------------------------------------------------------------------ expectations (oracle side, plain Python)
+def coord_names(fr):
+    return ["x", "y", "z"] if "z" in fr["cols"] else ["x", "y"]
+
+
+def frame_ids_fit(fr):
+    return all(fits32(r[0]) and fits32(r[1]) for r in fr["rows"])
+
+
 def frame_valid(fr):
-    """A valid mesh frame: non-empty, (element, node) pairs distinct, ids in the int32 range, x and y present."""
+    """A valid mesh frame: non-empty, (element, node) pairs distinct, x and y present, coordinate columns storable."""
     rows = fr["rows"]
     if not rows or "x" not in fr["cols"] or "y" not in fr["cols"]:
         return False
-    keys = [(r[0], r[1]) for r in rows]
-    if len(set(keys)) != len(keys):
+    if any(c in fr.get("obj", []) for c in coord_names(fr)):
         return False
-    return all(INT32_MIN <= i <= INT32_MAX for k in keys for i in k)
+    keys = [(r[0], r[1]) for r in rows]
+    return len(set(keys)) == len(keys)
 
 
 def column_consistent_per_node(fr, names):
@@ -279,6 +426,35 @@ def column_consistent_per_node(fr, names):
         if seen.setdefault(n, v) != v:
             return False
     return True
+
+
+def node_cells(fr, name):
+    """node -> set of the cells the node's rows carry in column `name`."""
+    i = fr["cols"].index(name)
+    out = {}
+    for e, n, vals in fr["rows"]:
+        out.setdefault(n, set()).add(cell(vals[i]))
+    return out
+
+
+def own_dim(fr):
+    """The dimension of a mesh frame judged from the frame alone: 3 iff there is a z column whose values are not all
+    equal (IEEE comparison: a NaN differs from everything).  None when z differs between the rows of one node (the
+    frame then does not say what the node's z is)."""
+    if "z" not in fr["cols"] or not fr["rows"]:
+        return 2
+    if not column_consistent_per_node(fr, ["z"]):
+        return None
+    i = fr["cols"].index("z")
+    zs = [float(r[2][i]) for r in fr["rows"]]
+    return 2 if all(z == zs[0] for z in zs) else 3
+
+
+def element_sizes(fr):
+    sizes = {}
+    for e, n, _ in fr["rows"]:
+        sizes[e] = sizes.get(e, 0) + 1
+    return sizes
 
 
 def contiguous(fr):
@@ -310,200 +486,455 @@ def parse_frame(text):
     return cols, rows
 
 
-def run_case(case):
-    """Executes the history on the real code.  Returns (segments for the correspondence, oracle verdict)."""
-    M = mods()
-    frames = [make_frame(fr) for fr in case["frames"]]
-    tmp = tempfile.mkdtemp(prefix="c20_", dir=tempfile.gettempdir())
-    fn = os.path.join(tmp, "case.vmap")
-    segs = []
-    verdict = None
+def op_has_overflow(case, op):
+    """The ids this call has to store do not all fit int32."""
+    if op["op"] == "set":
+        return not all(fits32(i) for i in op["ids"])
+    if op["op"] in ("geom", "var"):
+        return not frame_ids_fit(case["frames"][op["frame"]])
+    return False
 
-    def fail(desc, klass):
-        nonlocal verdict
-        if verdict is None:
-            verdict = (desc, klass)
 
-    try:
-        ex = M["exp"](fn)
-        geom_frame = {}      # geometry name -> index of the frame it was exported from
-        for pos, op in enumerate(case["ops"]):
-            k = op["op"]
-            if k in ("geom", "var", "set"):
-                before = snapshot(fn)
-                exc = None
+def mechanism_from(case, classes):
+    """Index of the first op at which the input mechanism of one of the finding classes `classes` acts, else None:
+    id-overflow-int32 - the call has to store an id outside int32;
+    sticky-dimension  - add_geometry of a frame whose own dimension is 2 after an add_geometry (whatever its outcome)
+                        of a frame whose own dimension is 3."""
+    seen3 = False
+    for i, op in enumerate(case["ops"]):
+        if K_OVERFLOW in classes and op_has_overflow(case, op):
+            return i
+        if op["op"] == "geom":
+            d = own_dim(case["frames"][op["frame"]])
+            if K_STICKY in classes and seen3 and d != 3:
+                return i
+            if d != 2:
+                seen3 = True
+    return None
+
+
+class Result:
+    """What a run leaves behind (picklable: it travels from the forked workers to the parent)."""
+
+    def __init__(self, run):
+        self.segs, self.fails, self.info = run.segs, run.fails, run.info
+        self.import_errs, self.injected = run.import_errs, run.injected
+
+
+class Run:
+    """One history on the real code: segments for the correspondence, failures for the oracle, statistics."""
+
+    def __init__(self, case):
+        self.case = case
+        self.segs = []
+        self.fails = []          # (description, class) in the order found
+        self.info = []           # per op: exception class name or None
+        self.import_errs = []
+        self.injected = {}
+        self.seen3 = False
+        self._dump = None        # full dump / snapshot of the file as it is now (None: not taken yet)
+        self._snap = None
+
+    def dump(self):
+        if self._dump is None:
+            self._dump = full_dump(self.fn)
+        return self._dump
+
+    def snap(self):
+        if self._snap is None:
+            self._snap = snapshot(self.fn)
+        return self._snap
+
+    def fail(self, desc, klass):
+        self.fails.append((desc, klass))
+
+    # ---- classes tied to the input mechanism
+    def klass_for(self, op, default):
+        if op_has_overflow(self.case, op):
+            return K_OVERFLOW
+        return default
+
+    def run(self):
+        M = mods()
+        case = self.case
+        self.frames = [make_frame(fr) for fr in case["frames"]]
+        tmp = tempfile.mkdtemp(prefix="c20_", dir=tempfile.gettempdir())
+        self.fn = fn = os.path.join(tmp, "case.vmap")
+        try:
+            self.ex = M["exp"](fn)
+            self.geom_frame = {}      # geometry name -> index of the frame it was exported from
+            self.stored = []          # re-checks at the end of the history
+            for pos, op in enumerate(case["ops"]):
+                k = op["op"]
+                if k in ("geom", "var", "set"):
+                    self.export_op(pos, op)
+                elif k == "other":
+                    self.other_op(pos, op)
+                elif k == "list":
+                    self.list_op(pos, op)
+                elif k == "import":
+                    self.import_op(pos, op)
+            # ---- what was exported successfully is still read back the same after everything that followed
+            for chk in self.stored:
+                chk("at the end of the history, ")
+            return Result(self)
+        finally:
+            shutil.rmtree(tmp, ignore_errors=True)
+
+    # ------------------------------------------------------------ exporter calls
+    def injected_trial(self, pos, op):
+        """The same call on a COPY of the file with a storage failure injected: whatever the call had written before
+        the failure has to be gone afterwards."""
+        what, k = op["inject"]
+        fn2 = self.fn + ".inj"
+        shutil.copyfile(self.fn, fn2)
+        try:
+            ex2 = copy.copy(self.ex)
+            ex2._file_name = fn2
+            if getattr(ex2, "file_name", None) != fn2:
+                return                                  # the exporter no longer keeps its path there: no trial
+            before = self.dump()                      # the copy holds what the file holds
+            exc = None
+            with Inject(what, k) as inj:
                 try:
-                    apply_export(ex, op, frames)
+                    apply_export(ex2, op, self.frames)
                 except Exception as e:
                     exc = e
-                after = snapshot(fn)
-                segs.append(("ok" if exc is None else "err:" + err_name(exc)) + f";dim={ex._dimension};"
-                            + show_snapshot(after))
-                fr = case["frames"][op["frame"]]
-                if exc is not None:
-                    # --- a failed export leaves no partial geometry or variable
-                    if before["geoms"] != after["geoms"] or before["vars"] != after["vars"]:
-                        changed = [g for g in after["geoms"] if after["geoms"][g] != before["geoms"].get(g)] + \
-                                  [v for v in after["vars"] if after["vars"][v] != before["vars"].get(v)] + \
-                                  [g for g in before["geoms"] if g not in after["geoms"]] + \
-                                  [v for v in before["vars"] if v not in after["vars"]]
-                        fail(f"op {pos} ({k}) raised {err_name(exc)} but the file changed: {changed[:3]}",
-                             "partial-after-failure")
-                    # --- a valid call must not fail
-                    if k == "geom" and frame_valid(fr) and op["name"] not in before["geoms"]:
-                        sizes = {}
-                        for e, n, _ in fr["rows"]:
-                            sizes[e] = sizes.get(e, 0) + 1
-                        if all((ex._dimension, s) in ELEMENT_TYPES for s in sizes.values()):
-                            klass = "mixed-element-types" if len(set(sizes.values())) > 1 else "export-raises"
-                            fail(f"op {pos}: add_geometry of a valid frame (element sizes {sorted(set(sizes.values()))}, "
-                                 f"dimension {ex._dimension}) raised {err_name(exc)}: {str(exc)[:120]}", klass)
-                    continue
-                # --- successful export: round trip
-                if k == "geom":
-                    geom_frame[op["name"]] = op["frame"]
-                    if frame_valid(fr):
-                        check_mesh_roundtrip(fn, op["name"], fr, pos, fail)
-                elif k == "var":
-                    if geom_frame.get(op["geom"]) == op["frame"] and frame_valid(fr):
-                        check_variable_roundtrip(fn, op, fr, pos, fail)
-                elif k == "set":
-                    gi = geom_frame.get(op["geom"])
-                    if gi is not None and frame_valid(case["frames"][gi]):
-                        check_set(fn, op, case["frames"][gi], after, pos, fail)
-            elif k == "list":
-                with Importer(fn) as im:
-                    try:
-                        ns = list(im.node_sets(op["geom"]))
-                        es = list(im.element_sets(op["geom"]))
-                        segs.append("nsets=" + ",".join(ns) + ";esets=" + ",".join(es))
-                    except Exception as e:
-                        segs.append("err:" + err_name(e))
-                        if isinstance(e, AttributeError):
-                            fail(f"op {pos}: listing the sets of geometry {op['geom']!r} raised AttributeError: {e}",
-                                 "set-name-decode")
-            elif k == "import":
-                with Importer(fn) as im:
-                    res = [run_chain(im, ch) for ch in op["chains"]]
-                segs.append("/".join(res))
-                # --- reading is repeatable: a chain that starts with make_mesh gives the same frame on the
-                # same importer object again and on a fresh one
-                for ch, r in zip(op["chains"], res):
-                    if ch and ch[0][0] == "mesh":
-                        with Importer(fn) as im2:
-                            r1 = run_chain(im2, ch)
-                            r2 = run_chain(im2, ch)
-                        if not (r == r1 == r2):
-                            fail(f"op {pos}: chain {ch} is not repeatable: {r[:80]} / {r1[:80]} / {r2[:80]}",
-                                 "not-repeatable")
-        return segs, verdict
-    finally:
-        shutil.rmtree(tmp, ignore_errors=True)
+            key = f"{op['op']}:{what}{k}:" + ("fired" if inj.fired else "not-reached")
+            self.injected[key] = self.injected.get(key, 0) + 1
+            if exc is not None:
+                self.check_unchanged(pos, op, before, full_dump(fn2), exc,
+                                     f" (storage failure injected at {what} #{k})" if inj.fired else "")
+        finally:
+            if os.path.exists(fn2):
+                os.remove(fn2)
 
+    def check_unchanged(self, pos, op, before, after, exc, note=""):
+        """A failed export leaves no partial geometry or variable: the dump of the whole file is as before (groups under
+        /VMAP/VARIABLES that hold no variable are not content, see dump_diff)."""
+        diff = dump_diff(before, after)
+        if diff:
+            self.fail(f"op {pos} ({op['op']}) raised {err_name(exc)}{note} but the file changed at {diff[:4]}",
+                      "partial-after-failure")
 
-def check_mesh_roundtrip(fn, name, fr, pos, fail):
-    with Importer(fn) as im:
+    def export_op(self, pos, op):
+        case, fn = self.case, self.fn
+        k = op["op"]
+        fr = case["frames"][op["frame"]]
+        if op.get("inject"):
+            self.injected_trial(pos, op)
+        before = self.dump()
+        snap_before = self.snap()
+        exc = None
         try:
-            got = show_frame(im.make_mesh(name).join_coordinates().to_frame())
+            apply_export(self.ex, op, self.frames)
         except Exception as e:
-            nc = 3 if "z" in fr["cols"] else 2
-            klass = "two-column-coordinates" if (nc == 2 and isinstance(e, ValueError)) else "roundtrip-mesh"
-            fail(f"op {pos}: reading geometry {name!r} back raised {err_name(e)}: {str(e)[:120]}", klass)
+            exc = e
+        self._dump = self._snap = None
+        after = self.snap()
+        self.info.append(None if exc is None else err_cause(exc))
+        self.segs.append(("ok" if exc is None else "err") + ";" + show_snapshot(after))
+        d = own_dim(fr) if k == "geom" else None
+        sticky = k == "geom" and self.seen3 and d == 2
+        if k == "geom" and d != 2:
+            self.seen3 = True
+        if exc is not None:
+            self.check_unchanged(pos, op, before, self.dump(), exc)
+            # --- a valid call must not fail
+            why = self.valid_call(op, fr, snap_before)
+            if why is not None:
+                klass = K_STICKY if sticky else why[1]
+                self.fail(f"op {pos}: {why[0]} raised {err_name(exc)}: {str(exc)[:120]}"
+                          + (" (an earlier add_geometry had a 3D frame)" if sticky else ""), klass)
             return
-    cols, rows = parse_frame(got)
-    names = ["x", "y", "z"] if "z" in fr["cols"] else ["x", "y"]
-    idx = [fr["cols"].index(c) for c in names]
-    exp = expected_rows(fr)
-    if cols != names:
-        fail(f"op {pos}: coordinate columns {cols} instead of {names}", "roundtrip-mesh")
-        return
-    if [(e, n) for e, n, _ in rows] != [(r[0], r[1]) for r in exp]:
-        fail(f"op {pos}: rows of the imported mesh {[(e, n) for e, n, _ in rows][:8]} differ from the exported "
-             f"rows ordered by element id {[(r[0], r[1]) for r in exp][:8]}", "roundtrip-mesh")
-        return
-    if column_consistent_per_node(fr, names):
-        for (e, n, cells), r in zip(rows, exp):
-            if cells != [cell(r[2][i]) for i in idx]:
-                fail(f"op {pos}: coordinates of element {e} node {n} read back as {cells}, exported "
-                     f"{[cell(r[2][i]) for i in idx]}", "roundtrip-mesh")
+        # --- successful export: round trip now and at the end of the history
+        if k == "geom":
+            self.geom_frame[op["name"]] = op["frame"]
+            if frame_valid(fr):
+                chk = lambda pre="", o=op, f=fr, p=pos, s=sticky: self.check_geometry(o, f, p, s, pre)
+                chk()
+                self.stored.append(chk)
+        elif k == "var":
+            if self.geom_frame.get(op["geom"]) == op["frame"] and frame_valid(fr):
+                key = (op["state"], op["geom"], op["var"])
+                chk = lambda pre="", o=op, f=fr, p=pos: self.check_variable_roundtrip(o, f, p, pre)
+                chk()
+                self.stored.append(chk)
+        elif k == "set":
+            gi = self.geom_frame.get(op["geom"])
+            if gi is not None and frame_valid(case["frames"][gi]):
+                name = op.get("name") or ""
+                # a later set of the same kind and name replaces this one in look-ups by name
+                self.stored = [c for c in self.stored if getattr(c, "set_key", None) != (op["geom"], op["kind"], name)]
+                chk = lambda pre="", o=op, g=case["frames"][gi], p=pos: self.check_set(o, g, p, pre)
+                chk.set_key = (op["geom"], op["kind"], name)
+                chk()
+                self.stored.append(chk)
+
+    def valid_call(self, op, fr, snap):
+        """(what, class) when the call is one the exporter has to accept, else None."""
+        k = op["op"]
+        if k == "geom":
+            if not frame_valid(fr) or not frame_ids_fit(fr) or op["name"] in snap["geoms"]:
+                return None
+            d = own_dim(fr)
+            sizes = set(element_sizes(fr).values())
+            if d is None or not all((d, s) in ELEMENT_TYPES for s in sizes):
+                return None
+            return (f"add_geometry of a valid frame (element sizes {sorted(sizes)}, own dimension {d})",
+                    "mixed-element-types" if len(sizes) > 1 else "export-raises")
+        if k == "var":
+            M = mods()
+            if op["geom"] not in snap["geoms"] or (op["state"], op["geom"], op["var"]) in snap["vars"]:
+                return None
+            names, loc = op.get("cols"), op.get("loc")
+            if names is None:
+                names = M["table"].get(op["var"], [None])[0]
+            if loc is None and op["var"] in M["table"]:
+                loc = M["table"][op["var"]][1].value
+            if names is None or loc not in (2, 6):
+                return None
+            if any(c not in fr["cols"] or c in fr.get("obj", []) for c in names):
+                return None
+            ids = [r[1] if loc == 2 else r[0] for r in fr["rows"]]
+            if not all(fits32(i) for i in ids):
+                return None
+            return (f"add_variable {op['var']!r} (location {loc}, columns {list(names)}) with valid arguments", "export-raises")
+        if k == "set":
+            name = op.get("name")
+            pool = {(r[1] if op["kind"] == 0 else r[0]) for r in fr["rows"]}
+            if op["geom"] not in snap["geoms"] or not (name is None or isinstance(name, str)):
+                return None
+            if not set(op["ids"]) <= pool or not all(fits32(i) for i in op["ids"]):
+                return None
+            return ("add_node_set / add_element_set with members of the mesh", "export-raises")
+        return None
+
+    def other_op(self, pos, op):
+        """Exporter calls outside the model (SYSTEM datasets, attributes): they must leave geometries and variables alone."""
+        before = self.dump()
+        exc = None
+        try:
+            apply_export(self.ex, op, self.frames)
+        except Exception as e:
+            exc = e
+        self._dump = self._snap = None
+        after = self.dump()
+        self.info.append(None if exc is None else err_name(exc))
+        self.segs.append("x")
+        diff = dump_diff(before, after)
+        if exc is not None:
+            if diff:
+                self.fail(f"op {pos} ({op['call']}) raised {err_name(exc)} but the file changed at {diff[:4]}",
+                          "partial-after-failure")
+            return
+        if op["call"] == "it":
+            bad = [k for k in diff if k != "VMAP/SYSTEM/INTEGRATIONTYPES"]
+        else:
+            bad = [k for k in diff if k != op["path"].strip("/")]
+            path = op["path"].strip("/")
+            if not bad and path in before and path in after:
+                a, b = dict(after[path][-1]), dict(before[path][-1])
+                if op["key"] not in a:
+                    bad = [path + "@" + op["key"] + " not set"]
+                a.pop(op["key"], None)
+                b.pop(op["key"], None)
+                if a != b or after[path][:-1] != before[path][:-1]:
+                    bad = [path]
+        if bad:
+            self.fail(f"op {pos} ({op['call']}) changed {bad[:4]}", "unrelated-change")
+
+    def list_op(self, pos, op):
+        with Importer(self.fn) as im:
+            gs = "geoms=" + ",".join(sorted(im.geometries()))
+            vs = []
+            for st in sorted(im.states()):
+                try:
+                    names = sorted(im.variables(op["geom"], st))
+                except KeyError:
+                    names = []
+                if names:
+                    vs.append(st + ":" + ".".join(names))
+            vs = ";vars=" + ",".join(vs)
+            try:
+                ns = list(im.node_sets(op["geom"]))
+                es = list(im.element_sets(op["geom"]))
+                self.segs.append(gs + ";nsets=" + ",".join(ns) + ";esets=" + ",".join(es) + vs)
+            except Exception as e:
+                self.segs.append(gs + ";err" + vs)
+                self.import_errs.append(err_name(e))
+                if isinstance(e, AttributeError):
+                    self.fail(f"op {pos}: listing the sets of geometry {op['geom']!r} raised AttributeError: {e}",
+                              "set-name-decode")
+
+    def import_op(self, pos, op):
+        fn = self.fn
+        with Importer(fn) as im:
+            res = [run_chain(im, ch, self.import_errs) for ch in op["chains"]]
+        self.segs.append("/".join(res))
+        # --- reading is repeatable: a chain that starts with make_mesh gives the same frame on the same importer
+        # object again and on a fresh one
+        for ch, r in zip(op["chains"], res):
+            if ch and ch[0][0] == "mesh":
+                with Importer(fn) as im2:
+                    r1 = run_chain(im2, ch)
+                    r2 = run_chain(im2, ch)
+                if not (r == r1 == r2):
+                    self.fail(f"op {pos}: chain {ch} is not repeatable: {r[:80]} / {r1[:80]} / {r2[:80]}",
+                              "not-repeatable")
+
+    # ------------------------------------------------------------ round trip checks
+    def check_geometry(self, op, fr, pos, sticky, pre=""):
+        self.check_mesh_roundtrip(op, fr, pos, pre)
+        self.check_element_types(op, fr, pos, sticky, pre)
+
+    def check_element_types(self, op, fr, pos, sticky, pre):
+        """The element type stored for every element is the type the file's own ELEMENTTYPES table lists for the frame's
+        own dimension and the element's node count."""
+        d = own_dim(fr)
+        if d is None:
+            return
+        sizes = element_sizes(fr)
+        with h5py.File(self.fn, "r") as f:
+            table = {int(r["myIdentifier"]): (int(r["myNumberOfNodes"]), int(r["myDimension"]))
+                     for r in f["VMAP/SYSTEM/ELEMENTTYPES"][:, 0]}
+            els = f[f"VMAP/GEOMETRY/{op['name']}/ELEMENTS/MYELEMENTS"][:, 0]
+            stored = {int(r["myIdentifier"]): int(r["myElementType"]) for r in els}
+        for e, s in sizes.items():
+            t = stored.get(e)
+            if t is None:
+                continue                # reported by the mesh round trip
+            if table.get(t) != (s, d):
+                klass = K_STICKY if sticky else self.klass_for(op, "element-type")
+                self.fail(f"{pre}op {pos}: element {e} ({s} nodes, mesh dimension {d}) is stored with element type {t} = "
+                          f"(nodes, dimension) {table.get(t)} of the file's ELEMENTTYPES table", klass)
                 return
 
-
-def check_variable_roundtrip(fn, op, fr, pos, fail):
-    M = mods()
-    names = op.get("cols")
-    if names is None:
-        names = M["table"][op["var"]][0]
-    loc = op.get("loc")
-    if loc is None:
-        loc = M["table"][op["var"]][1].value
-    idx = [fr["cols"].index(c) for c in names]
-    with Importer(fn) as im:
-        try:
-            got = show_frame(im.make_mesh(op["geom"], op["state"]).join_variable(op["var"], column_names=list(names))
-                             .to_frame())
-        except Exception as e:
-            fail(f"op {pos}: reading variable {op['var']!r} back raised {err_name(e)}: {str(e)[:120]}",
-                 "roundtrip-node-variable" if loc == 2 else "roundtrip-element-nodal")
-            return
-    cols, rows = parse_frame(got)
-    exp = expected_rows(fr)
-    if [(e, n) for e, n, _ in rows] != [(r[0], r[1]) for r in exp]:
-        fail(f"op {pos}: rows differ after joining {op['var']!r}", "roundtrip-mesh")
-        return
-    if loc == 2:
-        if not column_consistent_per_node(fr, names):
-            return          # the frame is not a nodal field; nothing to compare
-        for (e, n, cells), r in zip(rows, exp):
-            if cells != [cell(r[2][i]) for i in idx]:
-                fail(f"op {pos}: nodal variable {op['var']!r} at element {e} node {n}: read {cells}, exported "
-                     f"{[cell(r[2][i]) for i in idx]}", "roundtrip-node-variable")
+    def check_mesh_roundtrip(self, op, fr, pos, pre=""):
+        name = op["name"]
+        fail = self.fail
+        bad = self.klass_for(op, "roundtrip-mesh")
+        with Importer(self.fn) as im:
+            try:
+                got = show_frame(im.make_mesh(name).join_coordinates().to_frame())
+            except Exception as e:
+                nc = 3 if "z" in fr["cols"] else 2
+                klass = "two-column-coordinates" if (nc == 2 and isinstance(e, ValueError)) else bad
+                fail(f"{pre}op {pos}: reading geometry {name!r} back raised {err_name(e)}: {str(e)[:120]}", klass)
                 return
-    else:
-        for (e, n, cells), r in zip(rows, exp):
-            if cells != [cell(r[2][i]) for i in idx]:
-                klass = "roundtrip-element-nodal" if contiguous(fr) else "element-nodal-interleaved"
-                fail(f"op {pos}: element nodal variable {op['var']!r} at element {e} node {n}: read {cells}, "
-                     f"exported {[cell(r[2][i]) for i in idx]}"
-                     + ("" if contiguous(fr) else " (the rows of an element are not contiguous in the frame)"), klass)
-                return
-
-
-def check_set(fn, op, gfr, after, pos, fail):
-    name = op.get("name") or ""
-    kind = op["kind"]
-    # the set that a lookup by this name must find: the last one stored under the name
-    stored = [s for s in after["geoms"][op["geom"]]["sets"] if s[0] == kind and s[1] == name]
-    if not stored or stored[-1][2] != list(op["ids"]):
-        fail(f"op {pos}: set {name!r} is not stored as given", "filter-set")
-        return
-    members = set(op["ids"])
-    with Importer(fn) as im:
-        try:
-            listed = list(im.node_sets(op["geom"]) if kind == 0 else im.element_sets(op["geom"]))
-            ch = im.make_mesh(op["geom"])
-            ch = ch.filter_node_set(name) if kind == 0 else ch.filter_element_set(name)
-            got = show_frame(ch.to_frame())
-        except Exception as e:
-            klass = "set-name-decode" if isinstance(e, AttributeError) else "filter-set"
-            fail(f"op {pos}: listing / filtering by the stored set {name!r} raised {err_name(e)}: {str(e)[:100]}", klass)
+        cols, rows = parse_frame(got)
+        names = coord_names(fr)
+        idx = [fr["cols"].index(c) for c in names]
+        exp = expected_rows(fr)
+        if cols != names:
+            fail(f"{pre}op {pos}: coordinate columns {cols} instead of {names}", bad)
             return
-    if name not in listed:
-        fail(f"op {pos}: stored set {name!r} is not listed ({listed})", "filter-set")
-        return
-    _, rows = parse_frame(got)
-    exp = [(r[0], r[1]) for r in expected_rows(gfr) if (r[1] if kind == 0 else r[0]) in members]
-    if [(e, n) for e, n, _ in rows] != exp:
-        fail(f"op {pos}: filtering by set {name!r} (members {sorted(members)[:8]}) returned rows "
-             f"{[(e, n) for e, n, _ in rows][:8]}, expected {exp[:8]}", "filter-set")
+        if [(e, n) for e, n, _ in rows] != [(r[0], r[1]) for r in exp]:
+            fail(f"{pre}op {pos}: rows of the imported mesh {[(e, n) for e, n, _ in rows][:8]} differ from the exported "
+                 f"rows ordered by element id {[(r[0], r[1]) for r in exp][:8]}", bad)
+            return
+        self.compare_nodal(fr, names, rows, exp, pos, "coordinates", bad, pre)
+
+    def compare_nodal(self, fr, names, rows, exp, pos, what, klass, pre):
+        """Per node data (coordinates, NODE variables).  A column that is the same in all rows of a node has to come back
+        exactly; of a column that differs between the rows of a node one of the node's cells has to come back - a
+        non-missing one if the node has any."""
+        for j, c in enumerate(names):
+            i = fr["cols"].index(c)
+            if column_consistent_per_node(fr, [c]):
+                for (e, n, cells), r in zip(rows, exp):
+                    if len(cells) <= j or cells[j] != cell(r[2][i]):
+                        self.fail(f"{pre}op {pos}: {what}, column {c!r} of element {e} node {n} read back as "
+                                  f"{cells[j] if len(cells) > j else None}, exported {cell(r[2][i])}", klass)
+                        return
+            else:
+                pool = node_cells(fr, c)
+                for n in pool:
+                    if pool[n] != {"nan"}:
+                        pool[n] = pool[n] - {"nan"}       # a node that has a value somewhere must not come back as missing
+                for (e, n, cells) in rows:
+                    if len(cells) <= j or cells[j] not in pool.get(n, ()):
+                        self.fail(f"{pre}op {pos}: {what}, column {c!r} of node {n} read back as "
+                                  f"{cells[j] if len(cells) > j else None}, none of the node's cells {sorted(pool.get(n, ()))}",
+                                  klass)
+                        return
+
+    def check_variable_roundtrip(self, op, fr, pos, pre=""):
+        M = mods()
+        fail = self.fail
+        names = op.get("cols")
+        if names is None:
+            names = M["table"][op["var"]][0]
+        loc = op.get("loc")
+        if loc is None:
+            loc = M["table"][op["var"]][1].value
+        idx = [fr["cols"].index(c) for c in names]
+        kn = self.klass_for(op, "roundtrip-node-variable")
+        ke = self.klass_for(op, "roundtrip-element-nodal")
+        with Importer(self.fn) as im:
+            try:
+                got = show_frame(im.make_mesh(op["geom"], op["state"]).join_variable(op["var"], column_names=list(names))
+                                 .to_frame())
+            except Exception as e:
+                fail(f"{pre}op {pos}: reading variable {op['var']!r} back raised {err_name(e)}: {str(e)[:120]}",
+                     kn if loc == 2 else ke)
+                return
+        cols, rows = parse_frame(got)
+        exp = expected_rows(fr)
+        if [(e, n) for e, n, _ in rows] != [(r[0], r[1]) for r in exp]:
+            fail(f"{pre}op {pos}: rows differ after joining {op['var']!r}", self.klass_for(op, "roundtrip-mesh"))
+            return
+        if loc == 2:
+            self.compare_nodal(fr, list(names), rows, exp, pos, f"nodal variable {op['var']!r}", kn, pre)
+        else:
+            for (e, n, cells), r in zip(rows, exp):
+                if cells != [cell(r[2][i]) for i in idx]:
+                    klass = ke if contiguous(fr) else self.klass_for(op, "element-nodal-interleaved")
+                    fail(f"{pre}op {pos}: element nodal variable {op['var']!r} at element {e} node {n}: read {cells}, "
+                         f"exported {[cell(r[2][i]) for i in idx]}"
+                         + ("" if contiguous(fr) else " (the rows of an element are not contiguous in the frame)"), klass)
+                    return
+
+    def check_set(self, op, gfr, pos, pre=""):
+        fail = self.fail
+        name = op.get("name") or ""
+        kind = op["kind"]
+        # (a geometry exported from a frame with ids outside int32 is the same finding as the ids themselves)
+        bad = K_OVERFLOW if not frame_ids_fit(gfr) else self.klass_for(op, "filter-set")
+        members = set(op["ids"])
+        # the set that a look-up by this name must find: the last one stored under the name
+        stored = [s for s in self.snap()["geoms"][op["geom"]]["sets"] if s[0] == kind and s[1] == name]
+        if not stored or set(stored[-1][2]) != members:
+            fail(f"{pre}op {pos}: the members of set {name!r} are not stored as given "
+                 f"({sorted(stored[-1][2])[:6] if stored else None} for {sorted(members)[:6]})", bad)
+            return
+        with Importer(self.fn) as im:
+            try:
+                listed = list(im.node_sets(op["geom"]) if kind == 0 else im.element_sets(op["geom"]))
+                ch = im.make_mesh(op["geom"])
+                ch = ch.filter_node_set(name) if kind == 0 else ch.filter_element_set(name)
+                got = show_frame(ch.to_frame())
+            except Exception as e:
+                klass = "set-name-decode" if isinstance(e, AttributeError) else bad
+                fail(f"{pre}op {pos}: listing / filtering by the stored set {name!r} raised {err_name(e)}: {str(e)[:100]}", klass)
+                return
+        if name not in listed:
+            fail(f"{pre}op {pos}: stored set {name!r} is not listed ({listed})", bad)
+            return
+        _, rows = parse_frame(got)
+        exp = [(r[0], r[1]) for r in expected_rows(gfr) if (r[1] if kind == 0 else r[0]) in members]
+        if [(e, n) for e, n, _ in rows] != exp:
+            fail(f"{pre}op {pos}: filtering by set {name!r} (members {sorted(members)[:8]}) returned rows "
+                 f"{[(e, n) for e, n, _ in rows][:8]}, expected {exp[:8]}", bad)
 
 
 # ------------------------------------------------------------------ generators
 NODE_COUNTS = {2: [3, 4, 6, 8], 3: [4, 6, 8, 10, 15, 20]}
 BAD_COUNTS = [1, 2, 5, 7, 9]
-GEOMS = ["g", "h", "1", "part-2"]
-STATES = ["STATE-1", "s2"]
-SET_NAMES = ["ALL", "FIX", "a_b", ""]
+GEOMS = ["g", "h", "1", "part-2", "Gehäuse"]
+STATES = ["STATE-1", "s2", "Zustand-β"]
+SET_NAMES = ["ALL", "FIX", "a_b", "", "Rand-é"]
+BEYOND = [2 ** 31, 2 ** 31 + 5, -2 ** 31 - 1, 2 ** 40, -2 ** 33 - 7]
 
 
 def dy(rng):
@@ -514,6 +945,18 @@ def special(rng):
     return rng.choice([0.0, -0.0, 1e300, -1e-300, 5e-324, float("inf"), float("-inf"), 0.1, 1 / 3, 123456.789])
 
 
+def coord(rng):
+    """A coordinate: mostly not representable in binary32; the 1/8 grid, specials, NaN and infinities occur."""
+    r = rng.random()
+    if r < 0.35:
+        return dy(rng)
+    if r < 0.75:
+        return rng.uniform(-1.0, 1.0) * 10.0 ** rng.randint(-9, 6)
+    if r < 0.93:
+        return rng.choice([0.1, 0.3, 1 / 3, 1e-7, 123456.789, -0.0, 1e300, -1e-300, 5e-324, 2.0 ** -30, 1.0 + 2.0 ** -40])
+    return rng.choice([NAN, float("inf"), float("-inf")])
+
+
 def id_pool(rng, n, mode):
     if mode == "dense":
         ids = list(range(1, n + 1))
@@ -521,6 +964,9 @@ def id_pool(rng, n, mode):
         ids = rng.sample(range(1, 6 * n + 10), n)
     elif mode == "wide":
         ids = rng.sample(range(-50, 50), n) if n <= 100 else list(range(n))
+    elif mode == "beyond":   # some ids outside int32
+        k = rng.randint(1, min(2, n))
+        ids = rng.sample(BEYOND, k) + rng.sample(range(1, 6 * n + 10), n - k)
     else:   # int32 borders
         pool = [INT32_MIN, INT32_MIN + 1, -1, 0, 1, 65536, INT32_MAX - 1, INT32_MAX] + rng.sample(range(2, 60000), n)
         ids = rng.sample(pool, n)
@@ -528,9 +974,12 @@ def id_pool(rng, n, mode):
     return ids
 
 
+MODES = ["dense", "gaps", "gaps", "wide", "int32"]
+
+
 def gen_frame(rng, tier, want=None):
-    """A mesh frame.  want: None (valid) | 'badcount' | 'noxy'.  (Frames with a repeated (element, node) pair
-    are not meshes - pandas joins multiply their rows - and are outside the property's quantifier.)"""
+    """A mesh frame.  want: None (valid) | 'badcount' | 'noxy' | 'objcoord' | 'empty' | 'beyond'.  (Frames with a repeated
+    (element, node) pair are not meshes - pandas joins multiply their rows - and are outside the property's quantifier.)"""
     dim = rng.choice([2, 2, 3])
     big = tier == "thorough"
     nel = rng.choice([1, 2, 2, 3, 4, 6] + ([9, 14] if big else []))
@@ -541,30 +990,50 @@ def gen_frame(rng, tier, want=None):
     if want == "badcount":
         sizes[rng.randrange(nel)] = rng.choice(BAD_COUNTS + ([10] if dim == 2 else [3]))
     nnodes = max(max(sizes), int(sum(sizes) * rng.choice([0.4, 0.7, 1.0])))
-    mode = rng.choice(["dense", "gaps", "gaps", "wide", "int32"])
-    nids = id_pool(rng, nnodes, mode)
-    eids = id_pool(rng, nel, rng.choice(["dense", "gaps", "gaps", "wide", "int32"]))
+    nmode, emode = rng.choice(MODES), rng.choice(MODES)
+    if want == "beyond":
+        if rng.random() < 0.5:
+            nmode = "beyond"
+        else:
+            emode = "beyond"
+    nids = id_pool(rng, nnodes, nmode)
+    eids = id_pool(rng, nel, emode)
     has_z = dim == 3 or rng.random() < 0.75
-    coord = {}
-    for n in nids:
-        z = dy(rng) if dim == 3 else 0.0
-        coord[n] = [dy(rng), dy(rng), z]
-    if dim == 3 and rng.random() < 0.1:
-        # a 3D element table with a flat z: the exporter then treats the mesh as 2D
-        for n in nids:
-            coord[n][2] = 1.5
-    if dim == 2 and has_z and rng.random() < 0.2:
-        zc = rng.choice([-0.0, 2.5, -7.0])
-        for n in nids:
-            coord[n][2] = zc
-    # data columns: d* nodal fields (function of the node, may hold NaN), p* free NaN-free, q* free with specials
+    coords = {}
+    # the z range of a 3D mesh: ordinary | a thin part far from the origin | a tiny mesh | flat (then it is a 2D mesh)
+    zmode = rng.choice(["any", "any", "thin", "tiny", "flat"]) if dim == 3 else "plane"
+    z0 = rng.choice([1250.0, -3.0e5, 87.5, 1.0e7])
+    for j, n in enumerate(nids):
+        if zmode == "any":
+            z = coord(rng)
+        elif zmode == "thin":
+            z = z0 * (1.0 + rng.randint(0, 40) * 2.0 ** -22)
+        elif zmode == "tiny":
+            z = rng.randint(0, 50) * 1e-10
+        elif zmode == "flat":
+            z = 1.5
+        else:
+            z = 0.0
+        coords[n] = [coord(rng), coord(rng), z]
+    if zmode in ("thin", "tiny") and len({coords[n][2] for n in nids}) == 1:
+        coords[nids[0]][2] = z0 * (1.0 + 2.0 ** -21) if zmode == "thin" else 7e-10
+    if dim == 2 and has_z:
+        q = rng.random()
+        if q < 0.25:
+            zc = rng.choice([-0.0, 2.5, -7.0, 1250.004, 1e-9])
+            for n in nids:
+                coords[n][2] = zc
+        elif q < 0.29:
+            coords[rng.choice(nids)][2] = 1e-12          # noise in z: by its own frame this is a 3D mesh of 2D elements
+    # data columns: d* nodal fields (function of the node, may hold NaN), m1 a nodal field with missing (NaN) entries in
+    # some rows, p* free NaN-free, q* free with specials
     named = rng.random() < 0.35
     ncol = [c for c in (["dx", "dy", "dz"] if named else ["d1", "d2"])]
     pcol = ["S11", "S22", "S33", "S12", "S13", "S23"] if named and rng.random() < 0.7 else ["p1", "p2"]
-    qcol = ["q1"]
-    nodal = {n: [rng.choice([dy(rng), dy(rng), special(rng), float("nan")]) if rng.random() < 0.25 else dy(rng)
-                 for _ in ncol] for n in nids}
-    cols = (["x", "y", "z"] if has_z else ["x", "y"]) + ncol + pcol + qcol
+    mcol, qcol = ["m1"], ["q1"]
+    nodal = {n: [rng.choice([dy(rng), coord(rng), special(rng), NAN]) if rng.random() < 0.3 else dy(rng)
+                 for _ in ncol + mcol] for n in nids}
+    cols = (["x", "y", "z"] if has_z else ["x", "y"]) + ncol + mcol + pcol + qcol
     if want == "noxy":
         cols[rng.randrange(2)] = "u"
     rows_by_el = []
@@ -587,17 +1056,32 @@ def gen_frame(rng, tier, want=None):
         while any(pools):
             p = rng.choice([p for p in pools if p])
             rows.append(p.pop(0))
-    inconsistent = rng.random() < 0.12
+    inconsistent = rng.random() < 0.15
     out = []
     for e, n in rows:
-        c = list(coord[n][:3 if has_z else 2])
+        c = list(coords[n][:3 if has_z else 2])
         if inconsistent and rng.random() < 0.3:
-            c[rng.randrange(2)] += 0.5             # x or y differs between the rows of one node
-        vals = c + list(nodal[n]) + [dy(rng) if rng.random() < 0.9 else rng.choice([0.1, 1 / 3, 1e300, -0.0])
-                                      for _ in pcol] \
-            + [rng.choice([dy(rng), special(rng), float("nan")]) for _ in qcol]
+            j = rng.randrange(len(c))
+            c[j] = NAN if rng.random() < 0.5 else c[j] + 0.5   # a coordinate differs between the rows of one node / is missing
+        nv = list(nodal[n])
+        if rng.random() < 0.3:
+            nv[-1] = NAN                                        # m1: missing in this row
+        vals = c + nv + [dy(rng) if rng.random() < 0.9 else rng.choice([0.1, 1 / 3, 1e300, -0.0]) for _ in pcol] \
+            + [rng.choice([dy(rng), special(rng), NAN]) for _ in qcol]
         out.append([e, n, vals])
-    return {"cols": cols, "rows": out}
+    fr = {"cols": cols, "rows": out}
+    if want == "empty":
+        fr["rows"] = []
+    if want == "objcoord":
+        fr["obj"] = [rng.choice(coord_names(fr))]
+    elif rng.random() < 0.12:
+        fr["obj"] = [rng.choice(pcol + mcol)]                   # a data column that cannot be stored
+    if want is None and "obj" not in fr and rng.random() < 0.08:
+        fr["f32"] = True                                        # a binary32 frame: cells are binary32 values
+        for r in fr["rows"]:
+            with np.errstate(over="ignore"):
+                r[2] = [float(np.float32(v)) for v in r[2]]
+    return fr
 
 
 def frame_info(fr):
@@ -641,11 +1125,24 @@ def gen_chain(rng, geoms, states, vars_known, sets_known):
     return ch
 
 
+def gen_inject(rng, kind):
+    r = rng.random()
+    if r > 0.3 and kind != "var":
+        return None
+    if kind == "geom":
+        return rng.choice([["ds", 1], ["ds", 2], ["ds", 3], ["ds", 3], ["attr", 1], ["attr", 2]])
+    if kind == "var":
+        return rng.choice([["ds", 1], ["ds", 2], ["ds", 2], ["attr", 1]]) if r < 0.3 or rng.random() < 0.5 else None
+    return rng.choice([["ds", 1], ["attr", 1]])
+
+
 def gen_case(rng, tier):
     nframes = rng.choice([1, 1, 2, 2, 3])
     frames = [gen_frame(rng, tier) for _ in range(nframes)]
-    if rng.random() < 0.35:
-        frames.append(gen_frame(rng, tier, rng.choice(["badcount", "badcount", "noxy"])))
+    if rng.random() < 0.45:
+        frames.append(gen_frame(rng, tier, rng.choice(["badcount", "badcount", "noxy", "objcoord", "empty", "beyond",
+                                                       "beyond"])))
+        rng.shuffle(frames)
     ops = []
     geoms, states, vars_known, sets_known = [], [], [], []
     geom_frame = {}
@@ -670,7 +1167,7 @@ def gen_case(rng, tier):
             elif q < 0.24 and "S11" in frames[fi]["cols"]:
                 op = {"op": "var", "state": st, "geom": g, "var": rng.choice(["STRESS_CAUCHY", "E"]), "frame": fi,
                       "cols": None if rng.random() < 0.5 else ["S11", "S22", "S33", "S12", "S13", "S23"], "loc": None}
-            elif q < 0.30:
+            elif q < 0.34:
                 # failing calls: unknown variable without columns / without location, bad location, missing column
                 op = rng.choice([
                     {"op": "var", "state": st, "geom": g, "var": "UNKNOWN", "frame": fi, "cols": None, "loc": 2},
@@ -680,39 +1177,47 @@ def gen_case(rng, tier):
                     {"op": "var", "state": st, "geom": g, "var": "V3", "frame": fi, "cols": (nodal[:1] or ["x"]) + ["missing"], "loc": 6},
                 ])
             else:
-                loc = rng.choice([2, 6, 6])
-                pool = (nodal + ["x", "y"] + free) if loc == 2 else (free + nodal + ["q1", "x"])
-                k = rng.randint(1, min(3, len(pool)))
-                cols = rng.sample(pool, k)
+                loc = rng.choice([2, 2, 6, 6, 6])
+                pool = (nodal + ["x", "y", "m1", "m1"] + free) if loc == 2 else (free + nodal + ["q1", "x", "m1"])
+                pool = [c for c in pool if c in frames[fi]["cols"]] or ["x"]
+                k = rng.randint(1, min(3, len(set(pool))))
+                cols = rng.sample(sorted(set(pool)), k)
                 op = {"op": "var", "state": st, "geom": g, "var": rng.choice(["A", "B", "TEMP", "V1"]), "frame": fi,
                       "cols": cols, "loc": loc}
             ops.append(op)
             if st not in states:
                 states.append(st)
-            names = op["cols"]
-            if names is None and op["var"] in ("DISPLACEMENT", "STRESS_CAUCHY", "E"):
-                names = None
-            vars_known.append((st, g, op["var"], names))
+            vars_known.append((st, g, op["var"], op["cols"]))
         elif r < 0.72:
             g = rng.choice(geoms) if rng.random() < 0.9 else "nogeo"
             fi = geom_frame.get(g, 0)
+            if rng.random() < 0.12:
+                fi = rng.randrange(len(frames))                          # the mesh argument is another frame
             kind = rng.choice([0, 1])
             pool = sorted({(row[1] if kind == 0 else row[0]) for row in frames[fi]["rows"]})
-            ids = rng.sample(pool, rng.randint(1, len(pool)))
-            if rng.random() < 0.15:
+            ids = rng.sample(pool, rng.randint(0, len(pool))) if pool else []
+            if ids and rng.random() < 0.15:
                 ids = ids + [ids[0]]                                     # a repeated member
             q = rng.random()
             name = rng.choice(SET_NAMES)
             if q < 0.08:
-                ids = ids + [max(pool) + 1000 if max(pool) < INT32_MAX - 2000 else min(pool) - 7]   # not a subset
+                top = max(pool) if pool else 0
+                ids = ids + [top + 1000 if top < INT32_MAX - 2000 else min(pool) - 7]   # not a subset
             elif q < 0.14:
                 name = 7                                                 # not a string
             elif q < 0.22:
                 name = None
             ops.append({"op": "set", "kind": kind, "geom": g, "ids": ids, "frame": fi, "name": name})
             sets_known.append((g, kind, name if isinstance(name, str) else ""))
-        elif r < 0.78:
+        elif r < 0.76:
             ops.append({"op": "list", "geom": rng.choice(geoms + ["nogeo"]) if rng.random() < 0.1 else rng.choice(geoms)})
+        elif r < 0.80:
+            if rng.random() < 0.5:
+                ops.append({"op": "other", "call": "it", "content": rng.choice([0, 1, 1, 2])})
+            else:
+                path = rng.choice(["VMAP/GEOMETRY/" + rng.choice(geoms), "INVALID", "VMAP/VARIABLES", "VMAP/GEOMETRY/nogeo"])
+                ops.append({"op": "other", "call": "attr", "path": path, "key": rng.choice(["MYNAME", "MYSIZE"]),
+                            "value": rng.choice(["PART-1-1", 7])})
         else:
             chains = [gen_chain(rng, geoms, states, vars_known, sets_known) for _ in range(rng.randint(1, 3))]
             if rng.random() < 0.3:
@@ -720,6 +1225,11 @@ def gen_case(rng, tier):
             if rng.random() < 0.15:
                 chains.insert(0, [["coords"]])                           # no make_mesh yet
             ops.append({"op": "import", "chains": chains})
+    for op in ops:
+        if op["op"] in ("geom", "var", "set"):
+            inj = gen_inject(rng, op["op"])
+            if inj:
+                op["inject"] = inj
     # always end with a full read of every geometry
     chains = []
     for g in geoms:
@@ -737,12 +1247,13 @@ def gen_case(rng, tier):
 def tiny_cases():
     """Systematic small scope: every supported element type alone and every pair of types of one dimension
     in one geometry, with a nodal and an element nodal variable, a node set and an element set; contiguous
-    and interleaved rows."""
+    and interleaved rows; coordinates that are not binary32 values; for 3D once with an ordinary z range and once as
+    a thin layer far from the z origin; every exporter call once more with a storage failure injected."""
     out = []
     for dim in (2, 3):
         counts = NODE_COUNTS[dim]
         pairs = [(a,) for a in counts] + [(a, b) for a in counts for b in counts if a < b]
-        for sizes in pairs:
+        for pi, sizes in enumerate(pairs):
             for inter in (False, True):
                 if inter and len(sizes) == 1:
                     sizes_ = (sizes[0], sizes[0])
@@ -762,17 +1273,28 @@ def tiny_cases():
                                 rows.append(p.pop(0))
                 else:
                     rows = [r for el in rows_by_el for r in el]
+                thin = dim == 3 and inter
                 fr_rows = []
                 for i, (e, n) in enumerate(rows):
-                    z = n * 0.5 if dim == 3 else 0.0
-                    fr_rows.append([e, n, [n * 1.0, n * 0.25, z, n * 2.0, 100.0 * e + i]])
+                    if dim == 2:
+                        z = 0.0
+                    elif thin:
+                        z = 1250.0 + n * 0.0001            # 0.004 thick at z = 1250
+                    else:
+                        z = n * 0.5
+                    fr_rows.append([e, n, [n * 0.1, n / 3.0, z, n * 2.0, 100.0 * e + i]])
                 fr = {"cols": ["x", "y", "z", "d1", "p1"], "rows": fr_rows}
                 nodes = sorted({r[1] for r in rows})
-                ops = [{"op": "geom", "name": "g", "frame": 0},
-                       {"op": "var", "state": "s", "geom": "g", "var": "N", "frame": 0, "cols": ["d1"], "loc": 2},
-                       {"op": "var", "state": "s", "geom": "g", "var": "EN", "frame": 0, "cols": ["p1", "d1"], "loc": 6},
-                       {"op": "set", "kind": 0, "geom": "g", "ids": nodes[::2], "frame": 0, "name": "half"},
-                       {"op": "set", "kind": 1, "geom": "g", "ids": [rows_by_el[-1][0][0]], "frame": 0, "name": "last"},
+                inj = [["ds", 1 + pi % 3], ["ds", 1 + pi % 2], ["attr", 1], ["ds", 1], ["attr", 1]]
+                if pi % 2:
+                    inj[0] = ["attr", 1 + (pi // 2) % 2]
+                ops = [{"op": "geom", "name": "g", "frame": 0, "inject": inj[0]},
+                       {"op": "var", "state": "s", "geom": "g", "var": "N", "frame": 0, "cols": ["d1"], "loc": 2, "inject": inj[1]},
+                       {"op": "var", "state": "s", "geom": "g", "var": "EN", "frame": 0, "cols": ["p1", "d1"], "loc": 6,
+                        "inject": inj[2]},
+                       {"op": "set", "kind": 0, "geom": "g", "ids": nodes[::2], "frame": 0, "name": "half", "inject": inj[3]},
+                       {"op": "set", "kind": 1, "geom": "g", "ids": [rows_by_el[-1][0][0]], "frame": 0, "name": "last",
+                        "inject": inj[4]},
                        {"op": "list", "geom": "g"},
                        {"op": "import", "chains": [
                            [["mesh", "g", "s"], ["coords"], ["var", "N", None, ["n"]], ["var", "EN", None, ["a", "b"]]],
@@ -790,51 +1312,88 @@ class C20(Prop):
     THEOREMS = [
         "PylifeVerif.C20.roundtrip_mesh",
         "PylifeVerif.C20.roundtrip_coordinates",
+        "PylifeVerif.C20.node_value_is_own_cells",
         "PylifeVerif.C20.roundtrip_node_variable",
         "PylifeVerif.C20.roundtrip_element_nodal_variable",
+        "PylifeVerif.C20.joinCoords_step",
+        "PylifeVerif.C20.joinVar_step_node",
+        "PylifeVerif.C20.joinVar_step_element_nodal",
+        "PylifeVerif.C20.joinVar_step_node_stored",
+        "PylifeVerif.C20.joinVar_step_element_nodal_stored",
+        "PylifeVerif.C20.find_own_row",
         "PylifeVerif.C20.import_repeatable",
         "PylifeVerif.C20.filter_returns_set",
         "PylifeVerif.C20.filter_returns_element_set",
-        "PylifeVerif.C20.first_row_is_own_row",
+        "PylifeVerif.C20.failed_addGeometry_leaves_file_unchanged",
+        "PylifeVerif.C20.failed_addVariable_leaves_no_partial_variable",
+        "PylifeVerif.C20.failed_addSet_leaves_file_unchanged",
+        "PylifeVerif.C20.addGeometry_succeeds",
+        "PylifeVerif.C20.addGeometry_history_independent",
+        "PylifeVerif.C20.addVariable_succeeds",
+        "PylifeVerif.C20.addSet_succeeds",
+        "PylifeVerif.C20.addGeometry_ok_ids_fit",
+        "PylifeVerif.C20.addVariable_ok_ids_fit",
+        "PylifeVerif.C20.addGeometry_refuses_overflow",
+        "PylifeVerif.C20.addSet_refuses_overflow",
+        "PylifeVerif.C20.elemType_injective",
+        "PylifeVerif.C20.stored_element_types",
         "PylifeVerif.C20.exported_after_addGeometry",
         "PylifeVerif.C20.exported_persists_addGeometry",
         "PylifeVerif.C20.exported_persists_addVariable",
         "PylifeVerif.C20.exported_persists_addSet",
-        "PylifeVerif.C20.failed_addGeometry_leaves_file_unchanged",
-        "PylifeVerif.C20.failed_addVariable_leaves_no_partial_variable",
-        "PylifeVerif.C20.failed_addSet_leaves_file_unchanged",
+        "PylifeVerif.C20.addGeometry_keeps_vars_groups",
+        "PylifeVerif.C20.vars_persist_addGeometry",
+        "PylifeVerif.C20.groups_persist_addGeometry",
+        "PylifeVerif.C20.vars_persist_addVariable",
+        "PylifeVerif.C20.groups_persist_addVariable",
+        "PylifeVerif.C20.vars_persist_addSet",
+        "PylifeVerif.C20.sets_persist_addSet",
+        "PylifeVerif.C20.sets_persist_addVariable",
     ]
     PARTIAL = {}
-    RULE = ("export ops on an abstract file (geometries: point ids ascending + first row per node, elements by id "
-            "ascending with connectivity in frame order, type from (sticky dimension, node count); variables: NODE = "
-            "first row per node, ELEMENT_NODAL = rows grouped by element id; sets appended) with the roll-back of "
-            "the except-branches; import = mesh index from the connectivity, coordinates / variables joined by key, "
-            "set filters; to_frame resets the session")
+    PARALLEL = 8          # impl_lines / oracle are sharded over forked processes by core.pmap
+    RULE = ("export ops on an abstract file (geometries: point ids ascending + first non-missing cell per node and column, "
+            "elements by id ascending with connectivity in frame order, type from (the frame's own dimension, node count); "
+            "ids outside int32 refused; variables: NODE = first non-missing cell per node, ELEMENT_NODAL = rows grouped by "
+            "element id; sets appended) with the roll-back of the except-branches; import = mesh index from the "
+            "connectivity, coordinates / variables joined by key, set filters; to_frame resets the session")
     ASSUMPTIONS = [
-        "HDF5/h5py is modelled as a store that returns what was written (groups, datasets, attributes; binary64 "
-        "cells bit for bit; ids in the int32 range the format stores - ids outside it are outside the theorems and "
-        "the generator)",
-        "pandas groupby (sorted distinct keys, rows of a group in frame order), groupby.first on frames whose nodal "
-        "columns are NaN-free or constant per node, stable argsort, merge/join by key (left order kept) are "
-        "modelled by list functions; the correspondence check compares them with the real calls on this run's inputs",
-        "valid mesh frame = non-empty, distinct (element_id, node_id) pairs, columns x and y present; the "
-        "exporter's sticky _dimension flag is modelled but is outside the property's statement",
-        "a failing add_variable may leave the (empty) state / geometry groups it created under /VMAP/VARIABLES; "
-        "they hold no variable and are modelled, not reported",
+        "HDF5/h5py is modelled as a store that returns what was written (groups, datasets, attributes; binary64 / binary32 "
+        "cells bit for bit; ids as the 32 bit integers of the format).  h5py's integer conversions are NOT uniform (a "
+        "vlen int32 connectivity and an int64->int32 dataset conversion saturate, `dtype=np.int32` on a DataFrame wraps, a "
+        "Python int into a structured '<i4' field raises): the model has none of them because ids outside int32 are "
+        "refused (tools/fixes/C20-2-int32-ids.diff); the harness reads files with h5py as well (trusted)",
+        "pandas groupby (sorted distinct keys, rows of a group in frame order), GroupBy.first (first non-NaN cell per "
+        "column, NaN if there is none), stable argsort, Index.drop_duplicates, DataFrame.merge / join by key (left order "
+        "kept; a frame with distinct (element, node) pairs has no duplicate keys) are modelled by list functions; the "
+        "correspondence check compares them with the real calls on this run's inputs",
+        "valid mesh frame = non-empty, distinct (element_id, node_id) pairs, columns x and y present and of a numeric "
+        "dtype, ids within int32; its dimension is judged from the frame alone (3 iff a z column is not constant)",
+        "a failing add_variable may leave the (empty) state / geometry groups it created under /VMAP/VARIABLES; they "
+        "hold no variable, are not compared and not reported",
+        "not compared with the model (incidental): exception classes, the order and multiplicity of set members in the "
+        "file, the row order of a nodal variable's datasets; names with '/' (HDF5 paths) and re-opening an existing file "
+        "with VMAPExport (truncates) are outside the generator",
     ]
 
     def __init__(self):
         self.stats = {"cases": 0, "ops": {}, "export_errors": {}, "import_errors": {}, "frames": 0,
                       "mixed_type_frames": 0, "interleaved_frames": 0, "two_column_frames": 0,
-                      "rows_max": 0, "oracle_findings": {}}
+                      "frames_with_ids_outside_int32": 0, "empty_frames": 0, "object_column_frames": 0,
+                      "binary32_frames": 0, "coordinate_cells": 0, "coordinate_cells_not_binary32": 0,
+                      "coordinate_cells_nan_or_inf": 0, "thin_or_tiny_3d_frames": 0, "empty_sets": 0,
+                      "max_rows": 0, "injected_trials": {}, "oracle_findings": {},
+                      "exhaustive_scope_types": "every supported element type alone and every pair of types of one "
+                                                "dimension in one geometry (tiny_cases)"}
         self.exhaustive = False
         self._cache = {}
+        self._counted = set()
+        self._open = None
 
     # ---- generation
     def generate(self, rng, tier):
         cases = tiny_cases()
-        self.exhaustive = True      # every single type and every pair of types per dimension (tiny_cases)
-        n = 110 if tier == "quick" else 1500
+        n = 100 if tier == "quick" else 1400
         for _ in range(n):
             cases.append(gen_case(rng, tier))
         return cases
@@ -843,10 +1402,12 @@ class C20(Prop):
     def model_lines(self, case):
         return [encode(case)]
 
-    def _run(self, case):
+    def _run(self, case, count=False):
         key = json.dumps(case, sort_keys=True)
         if key not in self._cache:
-            self._cache[key] = run_case(case)
+            self._cache[key] = Run(case).run()
+        if count and key not in self._counted:      # the statistics describe the cases of the correspondence pass, each once
+            self._counted.add(key)
             self._count(case, self._cache[key])
         return self._cache[key]
 
@@ -855,47 +1416,106 @@ class C20(Prop):
         st["cases"] += 1
         for fr in case["frames"]:
             st["frames"] += 1
-            sizes = {}
-            for e, n, _ in fr["rows"]:
-                sizes[e] = sizes.get(e, 0) + 1
+            sizes = element_sizes(fr)
             st["mixed_type_frames"] += len(set(sizes.values())) > 1
             st["interleaved_frames"] += not contiguous(fr)
             st["two_column_frames"] += "z" not in fr["cols"]
-            st["rows_max"] = max(st["rows_max"], len(fr["rows"]))
-        for op, seg in zip(case["ops"], res[0]):
+            st["frames_with_ids_outside_int32"] += not frame_ids_fit(fr)
+            st["empty_frames"] += not fr["rows"]
+            st["object_column_frames"] += bool(fr.get("obj"))
+            st["binary32_frames"] += bool(fr.get("f32"))
+            st["max_rows"] = max(st["max_rows"], len(fr["rows"]))
+            idx = [fr["cols"].index(c) for c in ("x", "y", "z") if c in fr["cols"]]
+            zs = []
+            for r in fr["rows"]:
+                for i in idx:
+                    v = r[2][i]
+                    st["coordinate_cells"] += 1
+                    if v != v or v in (float("inf"), float("-inf")):
+                        st["coordinate_cells_nan_or_inf"] += 1
+                    elif float(np.float32(v)) != v:
+                        st["coordinate_cells_not_binary32"] += 1
+                if "z" in fr["cols"]:
+                    zs.append(r[2][fr["cols"].index("z")])
+            fin = [z for z in zs if z == z and abs(z) != float("inf")]
+            if fin and own_dim(fr) == 3 and np.allclose(fin, fin[0]):
+                st["thin_or_tiny_3d_frames"] += 1
+        for op, name in zip([o for o in case["ops"] if o["op"] in ("geom", "var", "set", "other")], res.info):
+            if name is not None:
+                k = op["op"] + ":" + name
+                st["export_errors"][k] = st["export_errors"].get(k, 0) + 1
+        for op in case["ops"]:
             st["ops"][op["op"]] = st["ops"].get(op["op"], 0) + 1
-            if op["op"] in ("geom", "var", "set"):
-                head = seg.split(";", 1)[0]
-                if head != "ok":
-                    k = op["op"] + ":" + head
-                    st["export_errors"][k] = st["export_errors"].get(k, 0) + 1
-            elif op["op"] == "import":
-                for r in seg.split("/"):
-                    if r.startswith("err:"):
-                        k = r.split("@")[0]
-                        st["import_errors"][k] = st["import_errors"].get(k, 0) + 1
-        if res[1] is not None:
-            st["oracle_findings"][res[1][1]] = st["oracle_findings"].get(res[1][1], 0) + 1
+            if op["op"] == "set" and not op["ids"]:
+                st["empty_sets"] += 1
+        for n in res.import_errs:
+            st["import_errors"][n] = st["import_errors"].get(n, 0) + 1
+        for k, v in res.injected.items():
+            st["injected_trials"][k] = st["injected_trials"].get(k, 0) + v
+        for _, klass in res.fails[:1]:
+            st["oracle_findings"][klass] = st["oracle_findings"].get(klass, 0) + 1
 
     def impl_lines(self, case):
-        return ["|".join(self._run(case)[0])]
+        return ["|".join(self._run(case, count=True).segs)]
+
+    def _run_safe(self, case):
+        alarm = getattr(core, "_with_alarm", None)          # per-case time limit of core._impl_safe, when core has one
+        timeout = getattr(core, "_CaseTimeout", ())
+        try:
+            if alarm is not None:
+                return alarm(core.CASE_TIMEOUT, lambda: self._run(case, count=True))
+            return self._run(case, count=True)
+        except timeout:
+            return f"EXC does not return within {core.CASE_TIMEOUT} s"
+        except Exception as e:
+            if core._involves_implementation(e) or not core._harness_side(e):
+                return f"EXC {type(e).__name__}: {str(e)[:200]}"
+            raise
+
+    def impl_all(self, cases):
+        """Every case is executed once (in forked workers); the results are kept so that the oracle pass reads them."""
+        out = []
+        for c, r in zip(cases, core.pmap(self, "_run_safe", cases)):
+            if isinstance(r, str):
+                out.append([r])
+            else:
+                self._cache[json.dumps(c, sort_keys=True)] = r
+                self._counted.add(json.dumps(c, sort_keys=True))
+                out.append(["|".join(r.segs)])
+        return out
+
+    def _open_classes(self):
+        if self._open is None:
+            self._open = {e["class"] for e in core.load_known(self.ID) if e.get("status") == "open"}
+        return self._open
 
     def compare(self, case, model_out, impl_out):
         if model_out == impl_out:
             return None
         a = model_out[0].split("|") if model_out else []
         b = impl_out[0].split("|") if impl_out else []
+        # The model describes the code WITH the repairs tools/fixes/C20-*.diff.  While a repaired defect is still an OPEN
+        # known finding (the fix is not in /repo yet) the segments from the first call on which that defect's input
+        # mechanism acts are the oracle's business (it reports the finding class); up to that call model and code must agree.
+        stop = mechanism_from(case, self._open_classes() & {K_OVERFLOW, K_STICKY})
+        if stop is not None:
+            a, b = a[:stop], b[:stop]
         for i, (x, y) in enumerate(zip(a, b)):
             if x != y:
                 j = next((k for k in range(min(len(x), len(y))) if x[k] != y[k]), min(len(x), len(y)))
                 lo = max(0, j - 60)
                 op = case["ops"][i] if i < len(case["ops"]) else None
                 return (f"op {i} {json.dumps(op)[:200]}: model=…{x[lo:j + 120]!r} impl=…{y[lo:j + 120]!r}")
-        return f"segments {len(a)} vs {len(b)}"
+        if len(a) != len(b):
+            return f"segments {len(a)} vs {len(b)}"
+        return None
 
     # ---- oracle
     def oracle(self, case):
-        return self._run(case)[1]
+        for desc, klass in self._run(case).fails:
+            if not self.known(klass, desc):
+                return (desc, klass)
+        return None
 
     def nontrivial(self, case, model_out):
         if not model_out:
@@ -921,14 +1541,23 @@ class C20(Prop):
                     cur = cand
                     changed = True
                 i -= 1
-            # drop whole elements / single data columns
+            # drop injected trials
+            for i, op in enumerate(cur["ops"]):
+                if op.get("inject"):
+                    ops = list(cur["ops"])
+                    ops[i] = {k: v for k, v in op.items() if k != "inject"}
+                    cand = {"frames": cur["frames"], "ops": ops}
+                    if still_fails(cand):
+                        cur = cand
+                        changed = True
+            # drop whole elements
             for fi, fr in enumerate(cur["frames"]):
                 for e in sorted({r[0] for r in fr["rows"]}):
                     rows = [r for r in fr["rows"] if r[0] != e]
                     if not rows:
                         continue
                     frames = list(cur["frames"])
-                    frames[fi] = {"cols": fr["cols"], "rows": rows}
+                    frames[fi] = dict(fr, rows=rows)
                     cand = {"frames": frames, "ops": cur["ops"]}
                     try:
                         if still_fails(cand):
@@ -937,4 +1566,15 @@ class C20(Prop):
                             changed = True
                     except Exception:
                         pass
+        # drop the frames no operation refers to
+        used = sorted({op["frame"] for op in cur["ops"] if "frame" in op})
+        if len(used) < len(cur["frames"]):
+            remap = {old: new for new, old in enumerate(used)}
+            cand = {"frames": [cur["frames"][i] for i in used],
+                    "ops": [dict(op, frame=remap[op["frame"]]) if "frame" in op else op for op in cur["ops"]]}
+            try:
+                if still_fails(cand):
+                    cur = cand
+            except Exception:
+                pass
         return cur
